@@ -18,6 +18,131 @@ use pep508_rs::{
 use sexp::S;
 use version_ranges::Ranges;
 
+// ---- requirement level (C06, C07, C08, C18, C19)
+trait UrlView: pep508_rs::Pep508Url + std::fmt::Display + PartialEq {
+    fn view(&self) -> (String, Option<String>);
+}
+impl UrlView for url::Url {
+    fn view(&self) -> (String, Option<String>) {
+        (self.to_string(), None)
+    }
+}
+impl UrlView for VerbatimUrl {
+    fn view(&self) -> (String, Option<String>) {
+        (self.to_string(), self.given().map(|s| s.to_string()))
+    }
+}
+
+/// an order-preserving key of a version: lexicographic order on the list = Version::cmp
+fn sort_key(v: &Version) -> Vec<u128> {
+    let mut k: Vec<u128> = vec![v.epoch() as u128];
+    let mut rel: Vec<u64> = v.release().to_vec();
+    while rel.last() == Some(&0) {
+        rel.pop();
+    }
+    for r in rel {
+        k.push(r as u128 + 1);
+    }
+    k.push(0);
+    let max = u64::MAX as u128;
+    let (pk, pn) = match v.pre() {
+        None => (0u128, 0u128),
+        Some(p) => (
+            match p.kind {
+                pep440_rs::PrereleaseKind::Alpha => 1,
+                pep440_rs::PrereleaseKind::Beta => 2,
+                pep440_rs::PrereleaseKind::Rc => 3,
+            },
+            p.number as u128,
+        ),
+    };
+    let post = v.post().map(|x| x as u128);
+    let dev = v.dev().map(|x| x as u128);
+    let suf = if pk == 0 && post.is_none() && dev.is_some() {
+        [1, 0, 0, dev.unwrap()]
+    } else if pk != 0 {
+        [1 + pk, pn, post.map_or(0, |p| p + 1), dev.unwrap_or(max)]
+    } else if post.is_none() {
+        [5, 0, 0, 0]
+    } else {
+        [6, 0, post.unwrap() + 1, dev.unwrap_or(max)]
+    };
+    k.extend_from_slice(&suf);
+    let local = v.local();
+    if local.is_empty() {
+        k.push(0);
+    } else {
+        k.push(1);
+        for seg in local.iter() {
+            match seg {
+                pep440_rs::LocalSegment::String(s) => {
+                    k.push(1);
+                    for c in s.chars() {
+                        k.push(c as u128 + 1);
+                    }
+                    k.push(0);
+                }
+                pep440_rs::LocalSegment::Number(n) => {
+                    k.push(2);
+                    k.push(*n as u128);
+                }
+            }
+        }
+        k.push(0);
+    }
+    k
+}
+
+fn spec_out(sp: &VersionSpecifier) -> S {
+    S::l(vec![S::l(sort_key(sp.version()).iter().map(S::a).collect()), S::str(&sp.to_string())])
+}
+
+fn kind_out<T: UrlView>(k: &Option<pep508_rs::VersionOrUrl<T>>) -> (S, bool) {
+    match k {
+        None => (S::a("none"), true),
+        Some(pep508_rs::VersionOrUrl::VersionSpecifier(specs)) => {
+            let v: Vec<&VersionSpecifier> = specs.iter().collect();
+            let mut keys_ok = true;
+            for a in &v {
+                for b in &v {
+                    if sort_key(a.version()).cmp(&sort_key(b.version())) != a.version().cmp(b.version()) {
+                        keys_ok = false;
+                    }
+                }
+            }
+            let mut out = vec![S::a("specs")];
+            out.extend(v.iter().map(|sp| spec_out(sp)));
+            (S::l(out), keys_ok)
+        }
+        Some(pep508_rs::VersionOrUrl::Url(u)) => {
+            let (d, g) = u.view();
+            (S::tag("url", vec![S::str(&d), g.map_or(S::a("none"), |g| S::str(&g))]), true)
+        }
+    }
+}
+
+fn wd_of(s: &S) -> Option<String> {
+    match s {
+        S::A(_) => None,
+        _ => Some(s.string()),
+    }
+}
+
+fn parse_req<T: UrlView>(text: &str, wd: &Option<String>, w: &mut Vec<(MarkerWarningKind, String)>) -> Result<Requirement<T>, Pep508Error<T>> {
+    match wd {
+        None => Requirement::<T>::from_str(text),
+        Some(d) => Requirement::<T>::parse_reporter(text, d, &mut |k, m| w.push((k, m))),
+    }
+}
+
+#[cfg(feature = "ext")]
+fn parse_unnamed(text: &str, wd: &Option<String>, w: &mut Vec<(MarkerWarningKind, String)>) -> Result<pep508_rs::UnnamedRequirement<VerbatimUrl>, Pep508Error<VerbatimUrl>> {
+    match wd {
+        None => pep508_rs::UnnamedRequirement::<VerbatimUrl>::from_str(text),
+        Some(d) => pep508_rs::UnnamedRequirement::<VerbatimUrl>::parse(text, d, &mut |k, m| w.push((k, m))),
+    }
+}
+
 fn vkey(k: &MarkerValueVersion) -> S {
     S::a(k.clone() as usize)
 }
@@ -277,6 +402,85 @@ impl St {
         let d = tree(&t);
         self.regs.push(t);
         vec![S::a(self.regs.len() - 1), d]
+    }
+
+    fn req<T: UrlView>(&mut self, text: &str, wd: &Option<String>) -> S
+    where
+        T::Err: std::fmt::Display,
+    {
+        let mut w = Vec::new();
+        match parse_req::<T>(text, wd, &mut w) {
+            Ok(r) => {
+                let (k, keys_ok) = kind_out(&r.version_or_url);
+                let shown = r.to_string();
+                let contents = r.marker.contents().map_or(S::a("none"), |c| S::str(&c.to_string()));
+                let mut v = vec![S::str(r.name.as_ref()), S::l(r.extras.iter().map(|e| S::str(e.as_ref())).collect()), k];
+                v.append(&mut self.push(r.marker.clone()));
+                v.push(if wd.is_some() { warnings(&w) } else { S::a("na") });
+                v.push(S::str(&shown));
+                v.push(contents);
+                v.push(S::bool(keys_ok));
+                S::tag("ok", v)
+            }
+            Err(e) => error(&e),
+        }
+    }
+
+    fn reqrt<T: UrlView>(&mut self, text: &str, wd: &Option<String>) -> S
+    where
+        T::Err: std::fmt::Display,
+    {
+        let mut w = Vec::new();
+        match parse_req::<T>(text, wd, &mut w) {
+            Ok(r) => {
+                let s1 = r.to_string();
+                let mut v = vec![S::str(&s1)];
+                v.append(&mut self.push(r.marker.clone()));
+                let back = match parse_req::<T>(&s1, wd, &mut w) {
+                    Ok(r2) => {
+                        let mut x = vec![S::bool(r2 == r), S::bool(r2.name == r.name), S::bool(r2.extras == r.extras),
+                                         S::bool(r2.version_or_url == r.version_or_url), S::bool(r2.marker == r.marker)];
+                        x.append(&mut self.push(r2.marker.clone()));
+                        x.push(S::str(&r2.to_string()));
+                        S::tag("ok", x)
+                    }
+                    Err(e) => error(&e),
+                };
+                v.push(back);
+                let json = serde_json::to_string(&r).unwrap();
+                let de = match serde_json::from_str::<Requirement<T>>(&json) {
+                    Ok(r3) => {
+                        let mut x = vec![S::bool(r3 == r), S::bool(r3.name == r.name), S::bool(r3.extras == r.extras),
+                                         S::bool(r3.version_or_url == r.version_or_url), S::bool(r3.marker == r.marker)];
+                        x.append(&mut self.push(r3.marker.clone()));
+                        S::tag("ok", x)
+                    }
+                    Err(e) => S::tag("err", vec![S::str(&e.to_string())]),
+                };
+                v.push(S::str(&json));
+                v.push(de);
+                S::tag("ok", v)
+            }
+            Err(e) => error(&e),
+        }
+    }
+
+    #[cfg(feature = "ext")]
+    fn path_url(&mut self, text: &str, wd: &Option<String>) -> S {
+        // replica of src/path.rs normalize_url_path on Unix: percent-decode, else unchanged
+        let decoded = urlencoding::decode(text).unwrap_or(std::borrow::Cow::Borrowed(text));
+        let r = match wd {
+            Some(d) => VerbatimUrl::from_path(decoded.as_ref(), d),
+            None => VerbatimUrl::from_absolute_path(decoded.as_ref()),
+        };
+        match r {
+            Ok(u) => S::tag("ok", vec![S::str(&u.to_string())]),
+            Err(e) => S::tag("err", vec![S::str(&e.to_string())]),
+        }
+    }
+    #[cfg(not(feature = "ext"))]
+    fn path_url(&mut self, _text: &str, _wd: &Option<String>) -> S {
+        S::a("unavailable")
     }
 
     fn run(&mut self, cmd: &S) -> S {
@@ -692,6 +896,114 @@ impl St {
                     None => S::a("err"),
                 }
             }
+            // ---- requirement level
+            "req" => {
+                let wd = wd_of(&l[2]);
+                let text = l[3].string();
+                if l[1].atom() == "url" { self.req::<url::Url>(&text, &wd) } else { self.req::<VerbatimUrl>(&text, &wd) }
+            }
+            "reqrt" => {
+                let wd = wd_of(&l[2]);
+                let text = l[3].string();
+                if l[1].atom() == "url" { self.reqrt::<url::Url>(&text, &wd) } else { self.reqrt::<VerbatimUrl>(&text, &wd) }
+            }
+            #[cfg(feature = "ext")]
+            "unnamed" => {
+                let wd = wd_of(&l[1]);
+                let text = l[2].string();
+                let mut w = Vec::new();
+                match parse_unnamed(&text, &wd, &mut w) {
+                    Ok(r) => {
+                        let (d, g) = r.url.view();
+                        let shown = r.to_string();
+                        let contents = r.marker.contents().map_or(S::a("none"), |c| S::str(&c.to_string()));
+                        let mut v = vec![S::str(&d), g.map_or(S::a("none"), |g| S::str(&g)),
+                                         S::l(r.extras.iter().map(|e| S::str(e.as_ref())).collect())];
+                        v.append(&mut self.push(r.marker.clone()));
+                        v.push(if wd.is_some() { warnings(&w) } else { S::a("na") });
+                        v.push(S::str(&shown));
+                        v.push(contents);
+                        S::tag("ok", v)
+                    }
+                    Err(e) => error(&e),
+                }
+            }
+            #[cfg(feature = "ext")]
+            "unnamedrt" => {
+                let wd = wd_of(&l[1]);
+                let text = l[2].string();
+                let mut w = Vec::new();
+                match parse_unnamed(&text, &wd, &mut w) {
+                    Ok(r) => {
+                        let s1 = r.to_string();
+                        let mut v = vec![S::str(&s1)];
+                        v.append(&mut self.push(r.marker.clone()));
+                        let back = match parse_unnamed(&s1, &wd, &mut w) {
+                            Ok(r2) => {
+                                let mut x = vec![S::bool(r2 == r), S::bool(r2.url == r.url), S::bool(r2.extras == r.extras), S::bool(r2.marker == r.marker)];
+                                x.append(&mut self.push(r2.marker.clone()));
+                                x.push(S::str(&r2.to_string()));
+                                x.push(S::bool(r2.url.given() == r.url.given()));
+                                S::tag("ok", x)
+                            }
+                            Err(e) => error(&e),
+                        };
+                        v.push(back);
+                        S::tag("ok", v)
+                    }
+                    Err(e) => error(&e),
+                }
+            }
+            "extras" => {
+                let text = l[1].string();
+                match pep508_rs::Extras::parse::<VerbatimUrl>(&text) {
+                    Ok(e) => {
+                        let d = format!("{:?}", e);
+                        let names: Vec<S> = d.split("ExtraName(\"").skip(1).map(|p| S::str(p.split('"').next().unwrap())).collect();
+                        S::tag("ok", vec![S::l(names)])
+                    }
+                    Err(e) => error(&e),
+                }
+            }
+            "spec" => match VersionSpecifier::from_str(&l[1].string()) {
+                Ok(sp) => { let o = spec_out(&sp); let v = o.list(); S::tag("ok", vec![v[0].clone(), v[1].clone()]) }
+                Err(e) => S::tag("err", vec![S::str(&e.to_string())]),
+            },
+            "urlparse" => {
+                let text = l[3].string();
+                let wd = wd_of(&l[2]);
+                match l[1].atom() {
+                    "F" => match url::Url::parse(&text) {
+                        Ok(u) => S::tag("ok", vec![S::str(&u.to_string())]),
+                        Err(e) => S::tag("err", vec![S::str(&e.to_string())]),
+                    },
+                    _ => self.path_url(&text, &wd),
+                }
+            }
+            "expandenv" => S::tag("ok", vec![S::str(&pep508_rs::expand_env_vars(&l[1].string()))]),
+            "splitscheme" => match pep508_rs::split_scheme(&l[1].string()) {
+                Some((a, b)) => S::tag("ok", vec![S::str(a), S::str(b)]),
+                None => S::a("none"),
+            },
+            "schemeparse" => match pep508_rs::Scheme::parse(&l[1].string()) {
+                Some(sc) => S::tag("ok", vec![S::bool(sc.is_file()), S::str(&sc.to_string())]),
+                None => S::a("none"),
+            },
+            "striphost" => S::tag("ok", vec![S::str(pep508_rs::strip_host(&l[1].string()))]),
+            "getenv" => match std::env::var(l[1].string()) {
+                Ok(v) => S::tag("ok", vec![S::str(&v)]),
+                Err(_) => S::a("none"),
+            },
+            "setenv" => {
+                std::env::set_var(l[1].string(), l[2].string());
+                S::a("ok")
+            }
+            "unsetenv" => {
+                std::env::remove_var(l[1].string());
+                S::a("ok")
+            }
+            "cwd" => S::tag("ok", vec![S::str(&std::env::current_dir().unwrap().to_string_lossy())]),
+            "features" => S::tag("ok", vec![S::bool(cfg!(feature = "ext"))]),
             "ping" => S::a("pong"),
             _ => S::tag("unknown-op", vec![S::a(op)]),
         }
